@@ -6,6 +6,7 @@
 import PestModel.Stack
 import PestModel.State
 import PestModel.Drv.Core
+import PestModel.Drv.Text
 
 open Pest
 
@@ -117,7 +118,10 @@ def handle (sess : Session) (line : String) : Session × String :=
   | cmd :: _ =>
     match handleCore sess toks with
     | some r => r
-    | none => (sess, "bad-request:" ++ cmd)
+    | none =>
+      match handleText toks with
+      | some r => (sess, r)
+      | none => (sess, "bad-request:" ++ cmd)
 
 end Drv
 
